@@ -43,8 +43,28 @@ Definition fkeys (f : frame) : list key :=
   match f with IFrame tx _ s l d => [(tx, s, l, d)] | SFrame _ _ _ _ => [] end.
 Definition ikeys (fs : list frame) : list key := flat_map fkeys fs.
 
+(* the only supervisory frames that travel are RR (with or without P / F) *)
 Definition sframe_ok (f : frame) : Prop :=
-  match f with SFrame func poll _ _ => func = RR /\ poll = false | IFrame _ _ _ _ _ => True end.
+  match f with SFrame func _ _ _ => func = RR | IFrame _ _ _ _ _ => True end.
+
+(* polls (P=1) and poll answers (F=1 supervisory frames) on a channel *)
+Definition is_poll (f : frame) : bool :=
+  match f with SFrame _ p _ _ => p | IFrame _ _ _ _ _ => false end.
+Definition is_final (f : frame) : bool :=
+  match f with SFrame _ _ fin _ => fin | IFrame _ _ _ _ _ => false end.
+Definition npolls (fs : list frame) : Z := zlen (filter is_poll fs).
+Definition nfinals (fs : list frame) : Z := zlen (filter is_final fs).
+
+Lemma npolls_app a b : npolls (a ++ b) = npolls a + npolls b.
+Proof. unfold npolls. now rewrite filter_app, zlen_app. Qed.
+Lemma nfinals_app a b : nfinals (a ++ b) = nfinals a + nfinals b.
+Proof. unfold nfinals. now rewrite filter_app, zlen_app. Qed.
+Lemma npolls_nonneg a : 0 <= npolls a. Proof. apply zlen_nonneg. Qed.
+Lemma nfinals_nonneg a : 0 <= nfinals a. Proof. apply zlen_nonneg. Qed.
+Lemma npolls_cons f a : npolls (f :: a) = (if is_poll f then 1 else 0) + npolls a.
+Proof. unfold npolls. cbn [filter]. destruct (is_poll f); [now rewrite zlen_cons|lia]. Qed.
+Lemma nfinals_cons f a : nfinals (f :: a) = (if is_final f then 1 else 0) + nfinals a.
+Proof. unfold nfinals. cbn [filter]. destruct (is_final f); [now rewrite zlen_cons|lia]. Qed.
 
 Lemma ikeys_app a b : ikeys (a ++ b) = ikeys a ++ ikeys b.
 Proof. apply flat_map_app. Qed.
@@ -102,6 +122,8 @@ Record dinv (strict : bool) (X Y : ep) (fwd bwd logf : list frame)
   d_win : zlen (e_txw X) <= e_pwin X;
   d_work : strict = true -> e_mon X = MonNone -> e_pend X <> [] -> zlen (e_txw X) = e_pwin X;
   d_busy : e_busy X = false;
+  (* a monitor handle is only set while a poll of X is on its way or being answered *)
+  d_pf : mon_set (e_mon X) = true -> 1 <= npolls fwd + nfinals bwd;
   d_fwd : ikeys fwd = map pkey infl;
   d_log : ikeys logf = map pkey (done ++ rcv ++ infl);
   d_sok : Forall sframe_ok fwd;
@@ -185,7 +207,7 @@ Proof.
   { exists (length out1). rewrite map_app. cbn. f_equal.
     clear -R4. induction R4; cbn; [reflexivity|]. now rewrite H, IHR4. }
   split.
-  { apply Forall_app. split; [|constructor; [cbn; auto|constructor]].
+  { apply Forall_app. split; [|constructor; [reflexivity|constructor]].
     clear -Hu. unfold update_ack in Hu. destruct (Z.ltb _ _).
     - injection Hu as <- <-. constructor.
     - unfold process_output in Hu. destruct (_ || _).
@@ -196,18 +218,25 @@ Proof.
   rewrite ikeys_app. cbn. now rewrite app_nil_r.
 Qed.
 
-Lemma on_frame_rcv_s e final req e' out sdus :
-  on_frame e (SFrame RR false final req) = (e', out, sdus) ->
+Lemma on_frame_rcv_s e poll final req e' out sdus :
+  on_frame e (SFrame RR poll final req) = (e', out, sdus) ->
   e_lackrx e = e_req e ->
   e_req e' = e_req e /\ e_lackrx e' = e_req e' /\ e_insdu e' = e_insdu e /\ sdus = [] /\
   Forall (fun f => req_of f = e_req e) out /\
-  out = snd (update_ack e req final).
+  (if poll then 1 else 0) <= nfinals out.
 Proof.
   cbn [on_frame]. intros H Hlar.
   destruct (update_ack e req final) as [e1 out1] eqn:Hu.
   pose proof (update_ack_rcv _ _ _ _ _ Hu) as (R1 & R2 & R3 & R4).
-  cbn in H. injection H as <- <- <-. cbn.
-  repeat split; auto. destruct R3; congruence.
+  change ((RR =? RR) || (RR =? RNR)) with true in H. cbn [andb] in H.
+  destruct poll.
+  - cbn [send_rr e_req] in H. injection H as <- <- <-. cbn [e_req e_lackrx e_insdu].
+    repeat split; auto.
+    + apply Forall_app. split; [assumption|]. constructor; [cbn; congruence|constructor].
+    + rewrite nfinals_app, nfinals_cons. cbn [is_final]. pose proof (nfinals_nonneg out1).
+      pose proof (nfinals_nonneg []). lia.
+  - injection H as <- <- <-. cbn [e_req e_lackrx e_insdu].
+    repeat split; auto; [destruct R3; congruence|apply nfinals_nonneg].
 Qed.
 
 (* sender view of on_frame: the sender fields are those update_ack leaves, and the only
@@ -216,12 +245,13 @@ Lemma on_frame_snd e f e' out sdus :
   on_frame e f = (e', out, sdus) -> sframe_ok f ->
   exists fin e1 out1 extra,
     update_ack e (req_of f) fin = (e1, out1) /\ out = out1 ++ extra /\
+    (is_final f = true -> fin = true) /\
     ikeys extra = [] /\ Forall sframe_ok extra /\
     e_pmps e' = e_pmps e1 /\ e_pwin e' = e_pwin e1 /\ e_next e' = e_next e1 /\
     e_lack e' = e_lack e1 /\ e_pend e' = e_pend e1 /\ e_txw e' = e_txw e1 /\
     (e_busy e' = e_busy e1 \/ e_busy e' = false) /\ e_mon e' = e_mon e1.
 Proof.
-  destruct f as [tx req s l data | func poll final req]; cbn [on_frame req_of sframe_ok].
+  destruct f as [tx req s l data | func poll final req]; cbn [on_frame req_of sframe_ok is_final].
   - intros H _. destruct (update_ack e req true) as [e1 out1] eqn:Hu.
     exists true, e1, out1.
     destruct (negb (tx =? e_req e1)).
@@ -229,10 +259,13 @@ Proof.
     + match type of H with (if ?c then _ else _) = _ => destruct c end.
       * injection H as <- <- <-. exists []. rewrite app_nil_r. cbn. repeat split; auto.
       * cbn in H. injection H as <- <- <-. eexists. cbn.
-        repeat split; auto. constructor; [cbn; auto|constructor].
-  - intros H [-> ->]. destruct (update_ack e req final) as [e1 out1] eqn:Hu.
-    exists final, e1, out1, []. cbn in H. injection H as <- <- <-. rewrite app_nil_r. cbn.
-    repeat split; auto.
+        repeat split; auto. constructor; [reflexivity|constructor].
+  - intros H ->. destruct (update_ack e req final) as [e1 out1] eqn:Hu.
+    change ((RR =? RR) || (RR =? RNR)) with true in H. cbn [andb] in H.
+    exists final, e1, out1. destruct poll.
+    + cbn in H. injection H as <- <- <-. eexists. cbn.
+      repeat split; auto. constructor; [reflexivity|constructor].
+    + injection H as <- <- <-. exists []. rewrite app_nil_r. cbn. repeat split; auto.
 Qed.
 
 (* ---------- process_output re-establishes the strict invariant ---------- *)
@@ -250,6 +283,9 @@ Proof.
   set (k := Z.to_nat (e_pwin X - Z.of_nat (length (e_txw X)))).
   exists (firstn k (e_pend X)).
   assert (Hk : Z.of_nat k = e_pwin X - zlen (e_txw X)) by (unfold k, zlen in *; lia).
+  assert (Hmon : forall tm', (tm' = e_tm X \/ tm_mon tm' = e_mon X) ->
+            mon_set (tm_mon tm') = false).
+  { intros tm' [-> | ->]; [rewrite tm_mon_e|]; exact Em. }
   constructor; cbn [e_pmps e_pwin e_next e_lack e_pend e_txw e_busy]; auto.
   - rewrite d_num0. rewrite <- (firstn_skipn k (e_pend X)) at 1. now rewrite <- !app_assoc.
   - now rewrite d_txw0, <- app_assoc.
@@ -259,6 +295,9 @@ Proof.
     { destruct (Nat.le_gt_cases (length (e_pend X)) k) as [Hle|Hgt]; [|exact Hgt].
       rewrite (skipn_all2 _ Hle) in Hne. congruence. }
     lia.
+  - rewrite e_mon_mk. intros Hs. exfalso.
+    rewrite Hmon in Hs; [discriminate|].
+    destruct (firstn k (e_pend X)); [left; reflexivity|right; reflexivity].
   - now rewrite ikeys_app, ikeys_iframes, d_fwd0, map_app.
   - rewrite ikeys_app, ikeys_iframes, d_log0, !map_app. now rewrite <- !app_assoc.
   - apply Forall_app. split; [assumption|apply iframes_ok].
@@ -293,6 +332,7 @@ Lemma dinv_bwd_grow st X Y Y' fwd bwd lg W S done rcv infl rs out :
        (rs ++ repeat (zlen done + zlen rcv) (length out)).
 Proof.
   intros [] (R1 & R2 & R3 & R4). constructor; auto.
+  - intros Hs. specialize (d_pf0 Hs). rewrite nfinals_app. pose proof (nfinals_nonneg out). lia.
   - now rewrite R1.
   - rewrite R1. destruct R3; congruence.
   - apply Forall2_app; [assumption|]. apply Forall2_repeat.
@@ -313,11 +353,12 @@ Qed.
 (* ---------- L3: X processes a frame coming back from Y ---------- *)
 Lemma snd_ack X Y fwd f bwd lg W S done rcv infl rs fin X1 out1 :
   dinv true X Y fwd (f :: bwd) lg W S done rcv infl rs ->
+  (is_final f = true -> fin = true) ->
   update_ack X (req_of f) fin = (X1, out1) ->
   exists done' rcv' infl' rs',
     dinv true X1 Y (fwd ++ out1) bwd (lg ++ out1) W S done' rcv' infl' rs'.
 Proof.
-  intros I H. pose proof I as [].
+  intros I Hfin H. pose proof I as [].
   inversion d_rs0 as [|f0 r1 bwd0 rs' Hr Hrs]; subst.
   cbn [chain] in d_chain0. destruct d_chain0 as [Hlo Hch].
   pose proof (chain_le _ _ _ Hch) as Hhi.
@@ -347,6 +388,11 @@ Proof.
     - rewrite d_txw0, skipn_app_le, zlen_app, zlen_skipn by assumption.
       rewrite d_txw0, zlen_app in d_win0. lia.
     - intros Hf; discriminate.
+    - (* F=1 with an acceptable acknowledgement clears the monitor handle *)
+      rewrite e_mon_mk. cbn [tm_mon]. destruct fin; cbn [andb].
+      + destruct (mon_set (e_mon X)) eqn:Em; [discriminate|]. rewrite Em. discriminate.
+      + intros Hset. specialize (d_pf0 Hset). rewrite nfinals_cons in d_pf0.
+        destruct (is_final f); [specialize (Hfin eq_refl); discriminate|]. lia.
     - rewrite d_log0. rewrite <- (firstn_skipn (Z.to_nat n) rcv) at 1.
       now rewrite <- !app_assoc.
     - now rewrite Hs.
@@ -363,12 +409,14 @@ Lemma snd_frame X Y fwd f bwd lg W S X' out sdus :
 Proof.
   intros (done & rcv & infl & rs & I) Hok H.
   destruct (on_frame_snd _ _ _ _ _ H Hok)
-    as (fin & e1 & out1 & extra & Hu & -> & Hk & Hx & E1 & E2 & E3 & E4 & E5 & E6 & E7 & E8).
-  destruct (snd_ack _ _ _ _ _ _ _ _ _ _ _ _ _ _ _ I Hu) as (done' & rcv' & infl' & rs' & I1).
+    as (fin & e1 & out1 & extra & Hu & -> & Hfin & Hk & Hx & E1 & E2 & E3 & E4 & E5 & E6 & E7 & E8).
+  destruct (snd_ack _ _ _ _ _ _ _ _ _ _ _ _ _ _ _ I Hfin Hu) as (done' & rcv' & infl' & rs' & I1).
   exists done', rcv', infl', rs'.
   pose proof I1 as [].
   constructor; rewrite ?E1, ?E2, ?E3, ?E4, ?E5, ?E6, ?E8; auto.
   - destruct E7 as [-> | ->]; auto.
+  - intros Hs. specialize (d_pf0 Hs). rewrite app_assoc, npolls_app.
+    pose proof (npolls_nonneg extra). lia.
   - now rewrite app_assoc, ikeys_app, Hk, app_nil_r.
   - now rewrite app_assoc, ikeys_app, Hk, app_nil_r.
   - rewrite app_assoc. apply Forall_app. auto.
@@ -419,6 +467,8 @@ Proof.
     constructor; auto.
     + rewrite d_num0. now rewrite <- !app_assoc.
     + rewrite d_txw0. now rewrite <- app_assoc.
+    + intros Hs. specialize (d_pf0 Hs). rewrite npolls_cons in d_pf0. cbn [is_poll] in d_pf0.
+      rewrite nfinals_app. pose proof (nfinals_nonneg out). lia.
     + rewrite d_log0. now rewrite <- !app_assoc.
     + now inversion d_sok0.
     + rewrite R1, Hz, Hacc, d_req0. unfold MAX_SEQ_NUM. now rewrite Zplus_mod_idemp_l.
@@ -428,15 +478,17 @@ Proof.
     + rewrite app_assoc, map_app, reasm_app, d_reasm0. cbn [map reasm].
       rewrite K2, K4 in R5.
       destruct (delivers (g_sar (p_seg p))); destruct R5 as [-> ->]; cbn; auto.
-  - (* S-frame: only RR without poll travels *)
-    inversion d_sok0 as [|f0 fwd0 Hf Hrest]; subst. cbn in Hf. destruct Hf as [-> ->].
-    destruct (on_frame_rcv_s _ _ _ _ _ _ H d_lar0) as (R1 & R2 & R3 & -> & R5 & _).
+  - (* S-frame: only RR travels; a poll is answered with F=1 *)
+    inversion d_sok0 as [|f0 fwd0 Hf Hrest]; subst. cbn in Hf. subst func.
+    destruct (on_frame_rcv_s _ _ _ _ _ _ _ H d_lar0) as (R1 & R2 & R3 & -> & R5 & R6).
     exists done, rcv, infl, (rs ++ repeat (zlen done + zlen rcv) (length out)).
     rewrite app_nil_r.
     assert (Ha : rcv_after Y Y' out).
     { repeat split; auto. right. congruence. }
     pose proof (dinv_bwd_grow _ _ _ _ _ _ _ _ _ _ _ _ _ _ I Ha) as [].
     constructor; auto.
+    intros Hs. specialize (d_pf0 Hs). rewrite npolls_cons in d_pf0. cbn [is_poll] in d_pf0.
+    rewrite nfinals_app. destruct poll; lia.
 Qed.
 
 (* ---------- timer events ---------- *)
@@ -452,18 +504,31 @@ Lemma snd_extra X Y fwd bwd lg W S X' extra :
   dinvE X Y fwd bwd lg W S ->
   e_pmps X' = e_pmps X -> e_pwin X' = e_pwin X -> e_next X' = e_next X -> e_lack X' = e_lack X ->
   e_pend X' = e_pend X -> e_txw X' = e_txw X -> e_busy X' = e_busy X ->
-  (e_mon X' = e_mon X \/ e_mon X' <> MonNone) ->
+  (e_mon X' = e_mon X \/
+   (mon_set (e_mon X') = true /\ (1 <= npolls extra \/ mon_set (e_mon X) = true))) ->
   ikeys extra = [] -> Forall sframe_ok extra ->
   dinvE X' Y (fwd ++ extra) bwd (lg ++ extra) W S.
 Proof.
   intros (done & rcv & infl & rs & []) E1 E2 E3 E4 E5 E6 E7 E8 Hk Hok.
   exists done, rcv, infl, rs.
   constructor; rewrite ?E1, ?E2, ?E3, ?E4, ?E5, ?E6, ?E7; auto.
-  - intros Hs Hm. destruct E8 as [E8|E8]; [rewrite E8 in Hm; auto|contradiction].
+  - intros Hs Hm. destruct E8 as [E8|[E8 _]]; [rewrite E8 in Hm; auto|].
+    rewrite Hm in E8. discriminate.
+  - intros Hs. rewrite npolls_app. pose proof (npolls_nonneg extra). pose proof (npolls_nonneg fwd).
+    pose proof (nfinals_nonneg bwd).
+    destruct E8 as [E8|[_ [E8|E8]]].
+    + rewrite E8 in Hs. specialize (d_pf0 Hs). lia.
+    + lia.
+    + specialize (d_pf0 E8). lia.
   - now rewrite ikeys_app, Hk, app_nil_r.
   - now rewrite ikeys_app, Hk, app_nil_r.
   - apply Forall_app. auto.
 Qed.
+
+Lemma send_poll_rcv e e' out : send_poll e = (e', out) ->
+  e_req e' = e_req e /\ e_insdu e' = e_insdu e /\ e_lackrx e' = e_req e /\
+  out = [SFrame RR true false (e_req e)].
+Proof. cbn. intros [= <- <-]. auto. Qed.
 
 Lemma send_rr_rcv e fin e' out : send_rr e fin = (e', out) ->
   e_req e' = e_req e /\ e_insdu e' = e_insdu e /\ e_lackrx e' = e_req e /\
@@ -473,7 +538,7 @@ Proof. cbn. intros [= <- <-]. auto. Qed.
 Lemma retx_timeout_rcv e e' out : retx_timeout e = (e', out) -> rcv_after e e' out.
 Proof.
   unfold retx_timeout. destruct (e_rrarm e).
-  - intros H. apply send_rr_rcv in H as (R1 & R2 & R3 & ->). cbn in *.
+  - intros H. apply send_poll_rcv in H as (R1 & R2 & R3 & ->). cbn in *.
     repeat split; auto. all: repeat constructor.
   - intros [= <- <-]. repeat split; auto.
 Qed.
@@ -482,7 +547,7 @@ Lemma mon_timeout_rcv e e' out : mon_timeout e = (e', out) -> rcv_after e e' out
 Proof.
   unfold mon_timeout. destruct (e_mon e); try (intros [= <- <-]; repeat split; auto).
   destruct (_ || _).
-  - intros H. apply send_rr_rcv in H as (R1 & R2 & R3 & ->). cbn in *.
+  - intros H. apply send_poll_rcv in H as (R1 & R2 & R3 & ->). cbn in *.
     repeat split; auto. all: repeat constructor.
   - intros [= <- <-]. repeat split; auto.
 Qed.
@@ -494,8 +559,8 @@ Proof.
   intros I H. unfold retx_timeout in H. destruct (e_rrarm X).
   - cbn in H. injection H as <- <-.
     eapply snd_extra; eauto; cbn; auto.
-    all: try (right; discriminate).
-    all: try (constructor; [cbn; auto|constructor]).
+    all: try (right; split; [reflexivity|left; cbn; lia]).
+    all: try (constructor; [reflexivity|constructor]).
   - injection H as <- <-. now rewrite !app_nil_r.
 Qed.
 
@@ -508,12 +573,12 @@ Proof.
   destruct (_ || _).
   - cbn in H. injection H as <- <-.
     eapply snd_extra; eauto; cbn; auto.
-    all: try (right; discriminate).
-    all: try (constructor; [cbn; auto|constructor]).
+    all: try (right; split; [reflexivity|left; cbn; lia]).
+    all: try (constructor; [reflexivity|constructor]).
   - injection H as <- <-. rewrite !app_nil_r.
     eapply (snd_extra _ _ _ _ _ _ _ _ []) in I; [rewrite !app_nil_r in I; exact I| | | | | | | | | | ];
       cbn; auto.
-    all: try (right; discriminate).
+    all: try (right; split; [reflexivity|right; rewrite Em; reflexivity]).
 Qed.
 
 (* ---------- the two-party system ---------- *)
@@ -657,10 +722,12 @@ Proof.
 Qed.
 
 Lemma dinvE_quiescent X Y lg W S :
-  dinvE X Y [] [] lg W S -> e_mon X = MonNone ->
-  S = W /\ e_pend X = [] /\ e_txw X = [] /\ e_insdu Y = [].
+  dinvE X Y [] [] lg W S ->
+  S = W /\ e_pend X = [] /\ e_txw X = [] /\ e_insdu Y = [] /\ e_mon X = MonNone.
 Proof.
-  intros (done & rcv & infl & rs & []) Hmon.
+  intros (done & rcv & infl & rs & []).
+  assert (Hmon : e_mon X = MonNone).
+  { destruct (e_mon X) eqn:Em; [reflexivity| |]; specialize (d_pf0 eq_refl); cbn in d_pf0; lia. }
   inversion d_rs0; subst. cbn in d_chain0.
   assert (rcv = []).
   { destruct rcv; [reflexivity|]. rewrite zlen_cons in d_chain0. pose proof (zlen_nonneg rcv). lia. }
@@ -779,24 +846,26 @@ Proof.
   split; eapply dinvE_prefix; eauto.
 Qed.
 
+(* complete delivery: every schedule, timers included (after fixes/D08t.patch a monitor
+   handle is only ever set while a poll is on its way or being answered, so in a quiescent
+   state nothing blocks the output) *)
 Theorem ertm_exactly_once_in_order mps_a win_a mps_b win_b sched :
-  params_ok mps_a win_a mps_b win_b -> no_timer sched = true ->
+  params_ok mps_a win_a mps_b win_b ->
   let s := run (sys_init mps_a win_a mps_b win_b) sched in
   (exists j, s_sink_b s = firstn j (writes_a sched)) /\
   (exists j, s_sink_a s = firstn j (writes_b sched)) /\
   (quiescent s = true ->
      s_sink_b s = writes_a sched /\ s_sink_a s = writes_b sched /\
      e_pend (s_a s) = [] /\ e_txw (s_a s) = [] /\ e_pend (s_b s) = [] /\ e_txw (s_b s) = [] /\
-     e_insdu (s_a s) = [] /\ e_insdu (s_b s) = []).
+     e_insdu (s_a s) = [] /\ e_insdu (s_b s) = [] /\
+     e_mon (s_a s) = MonNone /\ e_mon (s_b s) = MonNone).
 Proof.
-  intros H Hn s. destruct (inv_reachable _ _ _ _ sched H) as [IA IB]. fold s in IA, IB.
-  destruct (run_mon_none sched (sys_init mps_a win_a mps_b win_b) Hn eq_refl eq_refl) as [Ma Mb].
-  fold s in Ma, Mb.
+  intros H s. destruct (inv_reachable _ _ _ _ sched H) as [IA IB]. fold s in IA, IB.
   split; [eapply dinvE_prefix; eauto|]. split; [eapply dinvE_prefix; eauto|].
   unfold quiescent. intros Hq.
   destruct (s_ab s) eqn:Eab; [|discriminate]. destruct (s_ba s) eqn:Eba; [|discriminate].
-  apply dinvE_quiescent in IA as (A1 & A2 & A3 & A4); [|exact Ma].
-  apply dinvE_quiescent in IB as (B1 & B2 & B3 & B4); [|exact Mb]. auto 10.
+  apply dinvE_quiescent in IA as (A1 & A2 & A3 & A4 & A5).
+  apply dinvE_quiescent in IB as (B1 & B2 & B3 & B4 & B5). auto 12.
 Qed.
 
 Theorem window_respected mps_a win_a mps_b win_b sched :
@@ -877,20 +946,16 @@ Proof.
   split; [exact H|]. intros E. now rewrite E, app_nil_r in H.
 Qed.
 
-(* ---------- the no_timer hypothesis is necessary ----------
+(* ---------- the schedule on which the code used to stall (D08t) ----------
    MPS 10, window 2, A writes a 100-byte SDU (10 segments, 2 sent).  A's retransmission
-   timer fires before the first acknowledgement arrives: A sends RR(final=1) and arms the
-   monitor timer, which blocks _process_output.  B's acknowledgements are RR(final=0), so
-   nothing ever clears the monitor; when it fires, the poll counter has reached
-   peer_max_retransmission (1) and the dead handle keeps blocking.  The system is
-   quiescent with 8 pdus still queued and nothing delivered. *)
-Lemma ertm_timer_stall_refuted :
-  exists sched,
-    let s := run (sys_init 10 2 10 2) sched in
-    params_ok 10 2 10 2 /\ quiescent s = true /\ writes_a sched <> [] /\
-    s_sink_b s = [] /\ length (e_pend (s_a s)) = 8%nat /\ e_mon (s_a s) = MonDead.
-Proof.
-  exists [WriteA (repeat 7 100); TimeoutRetxA; DeliverAB; DeliverAB; DeliverAB;
-          DeliverBA; DeliverBA; TimeoutMonA].
-  vm_compute. repeat split; try lia; discriminate.
-Qed.
+   timer fires before the first acknowledgement arrives: A sends RR(P=1) and arms the
+   monitor timer; the monitor timer fires too (poll counter exhausted: dead handle).  B
+   answers the poll with RR(F=1), which clears the handle, and the transfer completes. *)
+Lemma ertm_timer_recovers :
+  let s := run (sys_init 10 2 10 2)
+             ([WriteA (repeat 7 100); TimeoutRetxA; DeliverAB; DeliverAB; DeliverAB; TimeoutMonA]
+              ++ repeat DeliverBA 3 ++ flat_map (fun _ => [DeliverAB; DeliverAB; DeliverBA; DeliverBA])
+                                               (seq 0 4)) in
+  quiescent s = true /\ s_sink_b s = [repeat 7 100] /\ e_mon (s_a s) = MonNone /\
+  npolls (s_log_ab s) = 1 /\ nfinals (s_log_ba s) = 1.
+Proof. vm_compute. repeat split. Qed.
